@@ -10,7 +10,7 @@
    The specification side (AST, printer, denotation) lives in harness/tokast.py; the oracle compares it with the
    implementation on exhaustive small and random deep ASTs on every run. *)
 From Coq Require Import List ZArith QArith Ascii String Bool.
-From GBS Require Import Model.PyStr Model.Num Model.Bond Model.Token Src.SrcBond Proofs.BondP Proofs.TokenP Model.DistFam Src.SrcDist Model.Stoch Proofs.TotalP Proofs.StochP Model.Mol Proofs.MolP.
+From GBS Require Import Model.PyStr Model.Num Model.Bond Model.Token Src.SrcBond Proofs.BondP Proofs.TokenP Model.DistFam Src.SrcDist Model.Stoch Proofs.TotalP Proofs.StochP Model.Mol Proofs.MolP Src.SrcDescr Proofs.DescrSrcP Src.SrcToken Proofs.TokenSrcP Src.SrcStochParse Proofs.StochParseSrcP.
 Import ListNotations.
 Open Scope Z_scope.
 
@@ -63,6 +63,16 @@ Theorem C02_molecule_elements_alternate_partial : forall (valid_atom : str -> bo
   parse_molecule valid_atom fprint text = OK m -> alternates (ml_elems m).
 Proof. exact parse_molecule_alternates. Qed.
 Print Assumptions C02_molecule_elements_alternate_partial.
+
+(* tie T: the descriptor, token and stochastic-object parsers rebuilt from the string expressions and decisions REGENERATED from bond.py,
+   token.py (with its two atom letter tables and _push_pop_atom_branch) and stochastic.py -- statement skeletons checked -- are the parsers
+   of the theorems in this file *)
+Theorem C02_parsers_are_source : forall (valid_atom : str -> bool),
+  (forall raw n pre atom, parse_descr_src raw n pre atom = parse_descr raw n pre atom) /\
+  (forall text off, parse_token_src valid_atom text off = parse_token valid_atom text off) /\
+  (forall text, parse_stoch_src valid_atom text = parse_stoch valid_atom text).
+Proof. intros va. split; [exact parse_descr_is_source|]. split; [exact (parse_token_is_source va)|exact (parse_stoch_is_source va)]. Qed.
+Print Assumptions C02_parsers_are_source.
 
 Example C02_example_branch_after_branch :
   summary "[<]CC(C)([>])C(=O)OC" = Some [(lit "<", Some 0, OSingle); (lit ">", Some 1, OSingle)].
